@@ -62,6 +62,11 @@ func childMain() {
 			switch j.Kind {
 			case jobSingle:
 				r := s.single(j.C, false)
+				if j.Verbose && os.Getenv("C05X_DUMP") != "" { // development aid: the statements themselves
+					for i, st := range r.Stmts {
+						s.Log = append(s.Log, fmt.Sprintf("  [%d] %s", i, clip(st)))
+					}
+				}
 				if j.Verbose {
 					s.Log = append(s.Log, fmt.Sprintf("replay %s: verdict=%s stmts=%d err=%q panic=%v life=%v wf=%v elapsed=%v", j.C.Format, r.Verdict, len(r.Stmts), clip(r.Err), r.Panic, r.Life, r.WF, r.Elapsed))
 				}
